@@ -1261,6 +1261,7 @@ mod convert {
             for from_attr in from_header.include_directories() {
                 let from_dir =
                     Self::convert_string(from_attr.clone(), from_dwarf, encoding, line_strings)?;
+                Self::check_string(&from_dir, encoding)?;
                 dirs.push(program.add_directory(from_dir));
             }
 
@@ -1293,6 +1294,16 @@ mod convert {
             })
         }
 
+        /// Check the preconditions of `LineProgram::add_directory` and `LineProgram::add_file`.
+        fn check_string(val: &LineString, encoding: Encoding) -> ConvertResult<()> {
+            if let LineString::String(val) = val {
+                if encoding.version <= 4 && val.is_empty() {
+                    return Err(ConvertError::InvalidAttributeValue);
+                }
+            }
+            Ok(())
+        }
+
         fn convert_string(
             from_attr: read::AttributeValue<R>,
             from_dwarf: &read::Dwarf<R>,
@@ -1312,6 +1323,7 @@ mod convert {
         ) -> ConvertResult<(LineString, DirectoryId, Option<FileInfo>)> {
             let from_name =
                 Self::convert_string(from_file.path_name(), from_dwarf, encoding, line_strings)?;
+            Self::check_string(&from_name, encoding)?;
             let from_dir = from_file.directory_index();
             if from_dir >= dirs.len() as u64 {
                 return Err(ConvertError::InvalidDirectoryIndex);
